@@ -15,6 +15,9 @@ L=/tmp/lean-mut-$$; rm -rf "$L"; cp -r /verif/lean "$L"
 for c in "$@"; do
   out=$(cd /verif && VERIF_REPO="$D" VERIF_LEAN="$L" VERIF_WORK="/tmp/work-mut-$$" VERIF_BINTAG="mut-$c" ./check "$c" 2>&1 | grep -E "VIOLATION|KNOWN|ok \(|MACHINERY" | head -3 | tr '\n' ' ')
   echo "$c: $out"
+  for r in /tmp/work-mut-$$/replays/$c-*.json; do
+    [ -f "$r" ] && python3 -c "import json,sys; d=json.load(open(sys.argv[1])); v=(d.get('violations') or [{}])[0]; print('    ->', (v.get('what') or str(d.get('broken'))[:300])[:400])" "$r"
+  done
 done
 rm -rf "$D" "$L" /tmp/work-mut-$$
 rm -rf /verif/harness/bin/mut-*
